@@ -1,6 +1,11 @@
 import GridVerif.Props.C06
 import GridVerif.Props.C06.Index
 import GridVerif.Props.C06.Radii
+import GridVerif.Props.C06.Routes
+import GridVerif.Props.C06.Select
+import GridVerif.Props.C06.Init
+import GridVerif.Props.C06.CallGen
+import GridVerif.Props.C06.Hirshfeld
 
 #print axioms GridVerif.C06.switch_maps_unit
 #print axioms GridVerif.C06.switch_lt_one
@@ -29,3 +34,28 @@ import GridVerif.Props.C06.Radii
 #print axioms GridVerif.C06.hirshfeld_sum_one
 #print axioms GridVerif.C06.bragg_table_good
 #print axioms GridVerif.C06.bragg_radii_positive
+#print axioms GridVerif.C06.caw_cutoff_parameter_unused
+#print axioms GridVerif.C06.routes_pass_order
+#print axioms GridVerif.C06.radius_generated
+#print axioms GridVerif.C06.generate_weights_generated
+#print axioms GridVerif.C06.generate_weights_key_error
+#print axioms GridVerif.C06.compute_atom_weight_generated
+#print axioms GridVerif.C06.compute_weights_generated
+#print axioms GridVerif.C06.routes_agree_generated
+#print axioms GridVerif.C06.per_atom_route_generated
+#print axioms GridVerif.C06.generate_select_formula
+#print axioms GridVerif.C06.compute_select_formula
+#print axioms GridVerif.C06.compute_select_perm
+#print axioms GridVerif.C06.generate_select_owner
+#print axioms GridVerif.C06.compute_select_owner
+#print axioms GridVerif.C06.init_generated
+#print axioms GridVerif.C06.cov_radii_table
+#print axioms GridVerif.C06.init_default_dict
+#print axioms GridVerif.C06.init_update_lookup
+#print axioms GridVerif.C06.call_generated
+#print axioms GridVerif.C06.becke_call_partition_generated
+#print axioms GridVerif.C06.proatom_files
+#print axioms GridVerif.C06.hirshfeld_generated
+#print axioms GridVerif.C06.hirshfeld_share_generated
+#print axioms GridVerif.C06.hirshfeld_sum_one_generated
+#print axioms GridVerif.C06.hirshfeld_needs_files
